@@ -137,7 +137,7 @@ func (vc *VC) execCall(fr *Frame, c *ssa.CallCommon, site ssa.Instruction, pos t
 	for _, a := range c.Args {
 		args = append(args, vc.valueOf(fr, a))
 	}
-	vc.atCallAsserts(fr, c, site, pos)
+	vc.atCallAsserts(fr, c, args, site, pos)
 	if c.IsInvoke() {
 		recv := vc.valueOf(fr, c.Value)
 		return vc.invoke(fr, recv, c.Value.Type(), c.Method, sig, args, pos)
@@ -176,7 +176,7 @@ func (vc *VC) execCall(fr *Frame, c *ssa.CallCommon, site ssa.Instruction, pos t
 
 // atCallAsserts checks the `atcall` assertions of the current function that
 // name the callee of c.
-func (vc *VC) atCallAsserts(fr *Frame, c *ssa.CallCommon, site ssa.Instruction, pos token.Pos) {
+func (vc *VC) atCallAsserts(fr *Frame, c *ssa.CallCommon, args []*Val, site ssa.Instruction, pos token.Pos) {
 	if fr.spec == nil || len(fr.spec.AtCalls) == 0 || site == nil || vc.discovery > 0 {
 		return
 	}
@@ -194,6 +194,17 @@ func (vc *VC) atCallAsserts(fr *Frame, c *ssa.CallCommon, site ssa.Instruction, 
 		}
 		names := map[string]*Val{}
 		vc.localNamesAt(fr, site, names)
+		// the call's operands: arg0 is the receiver of a method call
+		k := 0
+		if c.IsInvoke() {
+			names["arg0"] = vc.valueOf(fr, c.Value)
+			k = 1
+		}
+		for i, a := range args {
+			if a != nil && (a.T != "" || a.Loc == nil) {
+				names[fmt.Sprintf("arg%d", i+k)] = a
+			}
+		}
 		env := vc.specEnv(fr, names)
 		for _, cj := range conjuncts(ac.Clause) {
 			t, ok := vc.evalBool(cj, env)
